@@ -6,7 +6,7 @@ import struct
 
 from ..framework import Prop, mk, guarded, ensure_repo_on_path
 from .. import txfmt
-from .c15 import (build_block, run_seq, seq_agree, apply_plain, apply_objs, NOWIT, ZERO32, dsha, ser_tx, ser_header, ser_varint, txid, wtxid, ref_root, ref_witness_root,
+from .c15 import (build_block, run_seq, seq_agree, apply_plain, apply_objs, ZERO32, dsha, ser_tx, ser_header, ser_varint, txid, wtxid, ref_root, ref_witness_root,
                   has_witness, rnd_bytes)
 
 CHAINS = ('mainnet', 'testnet', 'signet', 'regtest')
